@@ -16,6 +16,23 @@ class WorkerError(Exception):
 def _worker(i):
     fn, analyse, kw = _G['fn'], _G['analyse'], _G['kw']
     try:
+        chunk = _G.get('chunk')
+        if chunk:
+            # streaming: analyse every `chunk` paths and drop them (bounded memory); the whole
+            # budget covers exploration and analysis together
+            kw = dict(kw, tlimit=max(5.0, _G['t0'] + _G['tlimit'] - time.time()))
+            buf, outs = [], []
+
+            def sink(p):
+                buf.append(p)
+                if len(buf) >= chunk:
+                    outs.append(analyse(list(buf)))
+                    buf.clear()
+            paths, ex, dt = explore(fn, prefix=_G['prefixes'][i], sink=sink, **kw)
+            if buf:
+                outs.append(analyse(list(buf)))
+            return outs, ex, len(paths)
+        kw = dict(kw, tlimit=max(5.0, _G['deadline'] - time.time()))
         paths, ex, dt = explore(fn, prefix=_G['prefixes'][i], **kw)
         return analyse(paths), ex, len(paths)
     except BaseException:      # a BaseException escaping a pool worker would hang the pool
@@ -23,7 +40,7 @@ def _worker(i):
         return WorkerError(traceback.format_exc()[-1500:]), False, 0
 
 
-def par_explore(fn, analyse, nprocs=16, frontier=48, tlimit=600.0, ieee_div=False, catch=(Exception,), max_paths=200000):
+def par_explore(fn, analyse, nprocs=16, frontier=48, tlimit=600.0, ieee_div=False, catch=(Exception,), max_paths=200000, chunk=None):
     """returns (list of analyse() outputs, exhaustive, total_paths, seconds)"""
     t0 = time.time()
     pending = [[]]
@@ -49,14 +66,17 @@ def par_explore(fn, analyse, nprocs=16, frontier=48, tlimit=600.0, ieee_div=Fals
     total = len(done)
     exhaustive = True
     if pending:
-        _G.update(fn=fn, analyse=analyse, prefixes=pending,
+        _G.update(fn=fn, analyse=analyse, prefixes=pending, chunk=chunk, t0=t0, tlimit=tlimit, deadline=t0 + 0.5 * tlimit,   # the other half is left for analyse()
                   kw=dict(tlimit=max(10.0, tlimit - (time.time() - t0)), ieee_div=ieee_div, catch=catch, max_paths=max_paths))
         ctx = mp.get_context('fork')
         with ctx.Pool(min(nprocs, len(pending))) as pool:
             for out, ex, n in pool.imap_unordered(_worker, range(len(pending)), chunksize=1):
                 if isinstance(out, WorkerError):
                     raise out
-                outs.append(out)
+                if isinstance(out, list):
+                    outs.extend(out)
+                else:
+                    outs.append(out)
                 exhaustive = exhaustive and ex
                 total += n
     return outs, exhaustive, total, time.time() - t0
